@@ -1,8 +1,95 @@
-"""C18 - engine K (Kani) harnesses, see harness/src/c18.rs and engine_k/harnesses.json"""
+"""C18 - engine K (Kani) harnesses, see harness/src/c18.rs and engine_k/harnesses.json, plus an engine M
+obligation on the BOLT-12 rule that ties an invoice's signing key to the offer it answers"""
+import re
+import z3
+from engine_m import exec as X
+from engine_m.session import Binding
 from engine_k import runner as K
+from .common import *
 
-EVIDENCE = dict(assumptions=['kernel only (narrow): BOLT-11 integer <-> 5-bit-group codec, amount <-> SI-prefix arithmetic, timestamp bounds; bech32 checksum, signatures and key recovery, tagged-field parsing and all of BOLT-12 are outside the claim'])
+EVIDENCE = dict(assumptions=['kernel only (narrow): BOLT-11 integer <-> 5-bit-group codec, amount <-> SI-prefix arithmetic, timestamp bounds (Kani); BOLT-12 check_invoice_signing_pubkey with public keys as abstract identities (equality only; <= 2 paths of <= 2 hops) (engine M); bech32 checksum, signatures and key recovery, tagged-field parsing, merkle hashing and metadata verification are outside the claim'])
 
 
 def run(S):
+    signing_pubkey(S, S.decls())
     K.run_property(S, 'C18')
+
+
+def signing_pubkey(S, D):
+    """C18.m: a BOLT-12 invoice answering an offer is accepted only under the key the offer commits to: the
+    issuer id when the offer has one, otherwise the final blinded node id of one of the offer's paths."""
+    if all(S._skip(o) for o in ('C18.m.signing_key', 'C18.m.nopanic', 'C18.m.witness', 'C18.m.validate')):
+        return
+    NP = NH = 2
+    E = S.engine()
+    E.slice_cap = NP
+    mem = {}
+    f = S.fn('check_invoice_signing_pubkey')
+    ids = {}
+
+    def pkid(v):
+        if getattr(v, 'alt', None) is not None:
+            c, a, b = v.alt
+            return z3.If(X.zbool(c), pkid(a), pkid(b))
+        if getattr(v, 'base', None) is None:
+            raise X.Unsupported('public key without identity: %r' % (v,))
+        t = z3.Int(v.base + '.id')
+        ids[v.base] = t
+        return t
+
+    def deref(v, mem_):
+        while isinstance(v, X.Ref):
+            v = E.read_path(mem_[v.cell], v.path, mem_, True, 'pk')
+        return v
+
+    def h_eq(E_, m, func, argv, guard, mem_, dty, caller):
+        r = pkid(deref(argv[0], mem_)) == pkid(deref(argv[1], mem_))
+        return X.B(z3.Not(r) if m.group(1) == 'ne' else r)
+    E.models.insert(0, (re.compile(r'PublicKey as PartialEq>::(eq|ne)$'), h_eq))
+    args = [E.sym('a%d' % n, t, mem) for n, t in f.params]
+    rv = S.call(E, f, args, mem)
+    ok = z3.And(S.ret_guard, X.zint(rv.d) == 0)
+    tlv = mem[args[1].cell]
+    i_issuer = D.field_index('OfferTlvStream', 'issuer_id') if D.struct_fields('OfferTlvStream') else 10
+    i_paths = D.field_index('OfferTlvStream', 'paths') if D.struct_fields('OfferTlvStream') else 7
+    issuer = E.read_path(tlv, (('f', i_issuer, 'std::option::Option<bitcoin::secp256k1::PublicKey>'),), mem, True, 'spec')
+    has_issuer = X.zint(issuer.d) == 1
+    issuer_id = pkid(E.read_path(issuer, (('v', 'Some'), ('f', 0, 'bitcoin::secp256k1::PublicKey')), mem, True, 'spec'))
+    paths = E.read_path(tlv, (('f', i_paths, 'std::option::Option<std::vec::Vec<blinded_path::message::BlindedMessagePath>>'),), mem, True, 'spec')
+    has_paths = X.zint(paths.d) == 1
+    pseq = E.read_path(paths, (('v', 'Some'), ('f', 0, 'std::vec::Vec<blinded_path::message::BlindedMessagePath>')), mem, True, 'spec')
+    signing = pkid(mem[args[0].cell])
+    np = pseq.n
+    BP = D.field_index('BlindedPath', 'blinded_hops')
+    BH = D.field_index('BlindedHop', 'blinded_node_id')
+    nh, hop = [], []
+    for j in range(NP):
+        inner = E.read_path(pseq.elems[j], (('f', 0, 'blinded_path::BlindedPath'), ('f', BP, 'std::vec::Vec<blinded_path::BlindedHop>')), mem, True, 'spec')
+        nh.append(inner.n)
+        hop.append([pkid(E.read_path(inner.elems[k], (('f', BH, 'bitcoin::secp256k1::PublicKey'),), mem, True, 'spec')) for k in range(NH)])
+    # spec, from BOLT 12 ("invoice_node_id must equal offer_issuer_id if present, otherwise the final blinded_node_id of a path")
+    last_is = [z3.And(np > j, z3.Or(*[z3.And(nh[j] == k + 1, hop[j][k] == signing) for k in range(NH)])) for j in range(NP)]
+    spec = z3.If(has_issuer, signing == issuer_id, z3.If(has_paths, z3.Or(*last_is), True))
+    allids = [signing, issuer_id] + [h for hs in hop for h in hs]
+    pre = [z3.And(t >= 1, t <= 250) for t in allids]          # key identities: only equality matters
+    flat = [signing, z3.If(has_issuer, 1, 0), issuer_id, z3.If(has_paths, 1, 0), np]
+    for j in range(NP):
+        flat += [nh[j]] + hop[j]
+
+    def line_fn(v):
+        sg, hi, ii, hp, npv = v[:5]
+        out = [sg, hi, ii, hp, npv if hp else 0]
+        rest = v[5:]
+        for j in range(npv if hp else 0):
+            n_ = rest[j * (1 + NH)]
+            out += [n_] + list(rest[j * (1 + NH) + 1: j * (1 + NH) + 1 + n_])
+        return ' '.join(str(x) for x in out)
+    b = Binding('invoice_signing_pubkey_probe', flat, [z3.If(ok, 1, 0)], line_fn=line_fn,
+                panic=z3.Or(*[X.zbool(p[0]) for p in E.panics]) if E.panics else False,
+                domain=[(1, 6), (0, 1), (1, 6), (0, 1), (0, NP)] + [(0, NH), (1, 6), (1, 6)] * NP)
+    S.prove('C18.m.signing_key', E, pre, ok == spec,
+            'an invoice is attributed to an offer only if it is signed by the key the offer commits to: the issuer id whenever the offer has one (paths do not widen it), otherwise the final blinded node id of one of its paths',
+            [b], bounds='public keys as abstract identities (equality only), <= %d paths of <= %d hops' % (NP, NH))
+    S.no_panic('C18.m.nopanic', E, pre, 'total', [b])
+    S.witness('C18.m.witness', E, pre + [has_issuer, has_paths, np == 2, nh[0] == 2], z3.Not(ok))
+    S.validate('C18.m.validate', E, b, n=150 if S.tier == 'quick' else 600)
